@@ -360,8 +360,45 @@ def match_finding(findings, prop, fs, op, impl=None, klass=None, profile=None):
 # ---------------------------------------------------------------------------------------------
 # evidence
 
+MAX_RESULT_KINDS = 48
+MAX_EVIDENCE_BYTES = 1 << 20
+_WORD = re.compile(r"[A-Za-z][A-Za-z_-]*\Z")
+_HEX = re.compile(r"[0-9a-fA-F]+\Z")
+
+
+def result_kind(ir):
+    """class of one harness answer for the input-distribution histogram: the leading status word (`ok`, `panic`,
+    `err/<ErrorKind>`, ...); an answer that is a bare value (a number, a packed format in hex) is counted as
+    `value`, never keyed by the value itself -- the histogram must stay a histogram"""
+    t = ir.split(" ")
+    if ir.startswith("err") and len(t) > 1:
+        return "err/" + t[1]
+    if _WORD.match(t[0]) and not _HEX.match(t[0]) and len(t[0]) <= 40:
+        return t[0]
+    return "value"
+
+
+def _shrink(o, depth=0):
+    """last-resort size guard: collapse any dict/list with more than 64 entries below the top levels"""
+    if isinstance(o, dict):
+        if depth >= 2 and len(o) > 64:
+            keep = dict(list(o.items())[:16])
+            keep["(truncated)"] = "%d entries in total" % len(o)
+            o = keep
+        return {k: _shrink(v, depth + 1) for k, v in o.items()}
+    if isinstance(o, list):
+        if depth >= 2 and len(o) > 64:
+            o = o[:16] + ["(truncated: %d entries in total)" % len(o)]
+        return [_shrink(v, depth + 1) for v in o]
+    if isinstance(o, str) and len(o) > 4000:
+        return o[:4000] + "...(truncated)"
+    return o
+
+
 def write_evidence(prop, tier, seed, cov, wall, violations, assumptions):
     os.makedirs(os.path.join(ROOT, "evidence"), exist_ok=True)
+    if len(json.dumps(cov)) > MAX_EVIDENCE_BYTES:
+        cov = _shrink(cov)
     ev = {
         "property_id": prop,
         "tier": tier,
